@@ -23,7 +23,10 @@ KEY_PARAB = "C11-near-parabolic-cancellation"   # |1-e|<~1e-8 far from pericentr
 KEY_ACOSH = "C11-hyperbolic-pericentre-nan"   # orbit() of a hyperbolic orbit at pericentre: acosh(1-ulp) = NaN -> M, l, T NaN
 KEY_NONFINITE = "C11-nonfinite-accepted"    # Pal elements with h^2+k^2>=1 or a<=0, classical a==0: accepted, NaN/inf particle
 
-RULE = ("Four sub-checks. kepler: (e, M|E) over e in [0,1) u (1,1e3] with mass on 1-+1e-12..1e-1 and M,E at 0, "
+RULE = ("Five sub-checks. pal_kepler: reb_tools_solve_kepler_pal(h,k,lambda) over e uniform in [0,0.99] (stratum "
+        "[0.25,0.99]), pomega uniform, lambda-pomega uniform or within 1e-12..1 of 0, 2pi, pi, vs the mpmath solution "
+        "(p,q)=(e sin E, e cos E) of Kepler's equation; the same polar stratum feeds the Pal cases of forward, and "
+        "readback round-trips through Pal elements.  kepler: (e, M|E) over e in [0,1) u (1,1e3] with mass on 1-+1e-12..1e-1 and M,E at 0, "
         "+-tiny, multiples of pi/2pi, up to 1e6: reb_M_to_E/E_to_f/M_to_f vs a bracketed 40-digit solve of Kepler's "
         "equation.  forward: a particle built by rebound.Particle(simulation, primary, ...) and by the variadic C "
         "reb_simulation_add_fmt from the same keyword set (a|P, e, inc, Omega, omega|pomega, one of "
